@@ -288,6 +288,10 @@ def judge_history(ops, results, classes=None, counters=None):
                 unreported_resync.discard(op["rd"])
             cls(geoclass(new_op, m), lag, ev, reqcls)
             cnt("reader_calls")
+            if full and o["with_avail"]:
+                cnt("avail_vs_full_read_checks")
+            if full and m.reader(op["rd"]).stuck_w is not None:
+                cnt("polls_inside_drop_episode")
             cnt("bytes_delivered", delivered)
             if ev == "drop-report":
                 cnt("drop_reports")
@@ -442,6 +446,54 @@ def gen_history(rng, tier, big=False, tiny=False):
     return ops
 
 
+# Hand-written short histories (run in every tier by worker 0): the situations the design names.
+def directed_histories():
+    F = FULL_IOV
+    rd = lambda r, dsz=1 << 20, icnt=F, frac=256, avail=0: {"op": "read", "rd": r, "dsz": dsz, "icnt": icnt,
+                                                          "avail": avail, "frac": frac, "split": 0}
+    wr = lambda want, mn=None, offs=0, mode=0: {"op": "write", "mode": mode, "offs": offs, "want": want,
+                                               "min": want if mn is None else mn}
+    out = []
+    # empty ring, reader at the head, small request
+    out.append([{"op": "new", "size": 64, "mbs": 8, "round0": None}, {"op": "rinit", "rd": 0, "depth": 0},
+                rd(0, dsz=1, icnt=1), wr(8), rd(0, dsz=8, icnt=1), rd(0, dsz=9, icnt=1), {"op": "free"}])
+    # never-written ring: available size against a full read
+    out.append([{"op": "new", "size": 64, "mbs": 8, "round0": None}, {"op": "rinit", "rd": 0, "depth": 0},
+                rd(0, avail=1), wr(8), rd(0, avail=1), {"op": "free"}])
+    # previous round tail ends with a block larger than the rest of the request, new round starts small
+    out.append([{"op": "new", "size": 16, "mbs": 1, "round0": None}, wr(3), wr(2), {"op": "rinit", "rd": 0, "depth": 1},
+                wr(8), wr(1, mn=14), rd(0, dsz=6), {"op": "free"}])
+    # equal blocks, reader exactly one round behind, polling while the writer laps it and goes on
+    h = [{"op": "new", "size": 64, "mbs": 16, "round0": None}]
+    h += [wr(16) for _ in range(4)] + [{"op": "rinit", "rd": 0, "depth": 64}]
+    for _ in range(14):
+        h += [wr(16), rd(0, frac=0, avail=1)]
+    h += [rd(0), {"op": "free"}]
+    out.append(h)
+    # reader sleeps for more than two rounds, then polls (accounting of the reported drop)
+    h = [{"op": "new", "size": 64, "mbs": 16, "round0": None}, wr(16), {"op": "rinit", "rd": 0, "depth": 16}, rd(0)]
+    h += [wr(16) for _ in range(9)] + [rd(0), wr(16), rd(0), {"op": "free"}]
+    out.append(h)
+    # same across the round counter wrap
+    h = [{"op": "new", "size": 64, "mbs": 16, "round0": U64 - 1}, wr(16), {"op": "rinit", "rd": 0, "depth": 16}, rd(0)]
+    h += [wr(16) for _ in range(9)] + [rd(0), wr(16), rd(0), {"op": "free"}]
+    out.append(h)
+    # varying block sizes: a big block of the new round covers several old blocks
+    h = [{"op": "new", "size": 64, "mbs": 4, "round0": None}] + [wr(8) for _ in range(7)]
+    h += [{"op": "rinit", "rd": 0, "depth": 24}, wr(40, mn=40), rd(0), {"op": "free"}]
+    out.append(h)
+    # leading offsets shift the new round against the old block table
+    h = [{"op": "new", "size": 64, "mbs": 8, "round0": None}] + [wr(8) for _ in range(8)]
+    h += [{"op": "rinit", "rd": 0, "depth": 16}, wr(16, offs=8), wr(16, offs=8), wr(16, offs=8), rd(0), {"op": "free"}]
+    out.append(h)
+    # a reader that was legitimately resynchronised reads a stale table entry whose bytes happen to be the
+    # newest block, then is handed the same block again
+    out.append([{"op": "new", "size": 8, "mbs": 1, "round0": None}, wr(1), {"op": "rinit", "rd": 0, "depth": 16},
+                wr(2), wr(1), wr(5, offs=4), wr(2, offs=1), wr(2), wr(2), rd(0, dsz=1, icnt=3), wr(1), wr(5, offs=4),
+                rd(0, dsz=3, icnt=1), rd(0, dsz=2, icnt=3), {"op": "free"}])
+    return out
+
+
 # ----------------------------------------------------------------------------
 # running
 # ----------------------------------------------------------------------------
@@ -454,11 +506,34 @@ def build_specs(tier):
     return specs
 
 
+def run_vg(exe, cases):
+    """One history in its own memcheck process.  memcheck reports do not stop the driver (the
+    exit code 99 arrives after the last observation), so the exit status and stderr are looked
+    at here: a report is turned into a Crash attributed to the last step of the history."""
+    import subprocess
+    data = b"".join(common.pack_case(c) for c in cases)
+    try:
+        p = subprocess.run(["/usr/bin/valgrind", "--error-exitcode=99", "-q", exe], input=data,
+                           stdout=subprocess.PIPE, stderr=subprocess.PIPE, env=common.run_env(), timeout=3600)
+        rc, out, err = p.returncode, p.stdout, p.stderr
+    except subprocess.TimeoutExpired as e:
+        rc, out, err = 97, e.stdout or b"", (e.stderr or b"") + b"\nVERIF-HANG wall watchdog"
+    obs = common._parse_obs(out)
+    text = err.decode("utf-8", "replace")
+    res = list(obs[:len(cases)])
+    if rc != 0 or re.search(r"==\d+== (Invalid|Conditional jump|Use of uninit|Syscall param|Process terminating)", text):
+        crash = Crash("valgrind" if rc in (0, 99) else common.classify_crash(rc, text), text[-6000:], rc)
+        if len(res) >= len(cases):
+            res[len(cases) - 1] = crash
+        else:
+            res.append(crash)
+    return res
+
+
 def run_ops(exes, variant, ops):
     cases = [encode_op(o) for o in ops]
     if variant.startswith("vg-"):
-        return common.run_cases("/usr/bin/valgrind", cases, args=("--error-exitcode=99", "-q", exes[variant]),
-                                wall_timeout=3600)
+        return run_vg(exes[variant], cases)
     return common.run_cases(exes[variant], cases)
 
 
@@ -501,12 +576,17 @@ def worker(job):
     for j in range(nhist):
         r = Rng(PROP, common.seed(), variant, widx, j)
         hists.append(gen_history(r, tier, big=(j < bigs), tiny=(j % 4 == 3)))
+    if widx == 0:
+        hists += directed_histories()
     cases = []
     for ops in hists:
         cases += [encode_op(o) for o in ops]
     if variant.startswith("vg-"):
-        results = common.run_cases("/usr/bin/valgrind", cases, args=("--error-exitcode=99", "-q", exes[variant]),
-                                   wall_timeout=3600)
+        results = []
+        for ops in hists:          # one memcheck process per history (see run_vg)
+            r = run_vg(exes[variant], [encode_op(o) for o in ops])
+            results += r + [None] * (len(ops) - len(r))
+        common.part_count(part, "valgrind_histories", len(hists))
     else:
         results = common.run_cases(exes[variant], cases)
     pos = 0
